@@ -1167,3 +1167,79 @@ Section TransportRT.
       + apply IH; auto.
   Qed.
 End TransportRT.
+
+(* ------------------------------------------------------------------ the integer syntax accepted on the from-string paths
+   (convertType: strconv.ParseInt(s, 10, 64) / ParseUint(s, 10, 64)) *)
+Lemma parse_digits_only s : forall acc z, parse_digits s acc = Some z -> str_all is_digit s = true.
+Proof.
+  induction s as [|c r IH]; simpl; intros acc z H; [reflexivity|]. unfold is_digit.
+  destruct (digit_of c); [|discriminate]. simpl. eapply IH; eauto.
+Qed.
+Lemma parse_digits_some s : forall acc, str_all is_digit s = true -> exists z, parse_digits s acc = Some z.
+Proof.
+  induction s as [|c r IH]; simpl; intros acc H; [eauto|]. apply andb_true_iff in H as [H1 H2]. unfold is_digit in H1.
+  destruct (digit_of c); [|discriminate]. apply IH. exact H2.
+Qed.
+
+Definition digits_syntax (s : string) : bool := match s with EmptyString => false | _ => str_all is_digit s end.
+Definition int_syntax (s : string) : bool :=
+  match s with
+  | String c r => if Ascii.eqb c "-" || Ascii.eqb c "+" then digits_syntax r else digits_syntax s
+  | EmptyString => false
+  end.
+
+Lemma parse_udec_syntax s : (exists z, parse_udec s = Some z) <-> digits_syntax s = true.
+Proof.
+  unfold parse_udec, digits_syntax. destruct s as [|c r]; [split; [intros [z H]; discriminate | discriminate]|]. split.
+  - intros [z H]. eapply parse_digits_only; eauto.
+  - apply parse_digits_some.
+Qed.
+
+Lemma parse_signed_syntax s : (exists z, parse_signed s = Some z) <-> int_syntax s = true.
+Proof.
+  unfold parse_signed, int_syntax. destruct s as [|c r]; [split; [intros [z H]; discriminate | discriminate]|].
+  destruct (Ascii.eqb c "-") eqn:E1; simpl orb.
+  - rewrite <- parse_udec_syntax. split; intros [z H].
+    + destruct (parse_udec r); [eauto | discriminate].
+    + rewrite H. simpl. eauto.
+  - destruct (Ascii.eqb c "+") eqn:E2; simpl orb; apply parse_udec_syntax.
+Qed.
+
+(* ------------------------------------------------------------------ a form-tagged string member and its zero value *)
+Lemma form_string_back_spec optional dflt sent :
+  form_string_back optional dflt sent = Some sent <->
+  (sent <> EmptyString \/ dflt = Some EmptyString \/ (dflt = None /\ optional = true)).
+Proof.
+  unfold form_string_back. destruct (String.eqb sent "") eqn:E.
+  - apply String.eqb_eq in E. subst. split.
+    + destruct dflt as [d|]; [intro H; inversion H; auto|]. destruct optional; [auto | discriminate].
+    + intros [H|[H|[H1 H2]]]; [contradiction | subst; reflexivity | subst; reflexivity].
+  - split; [intros _; left; intro H; subst; discriminate | reflexivity].
+Qed.
+
+(* ------------------------------------------------------------------ Marshal: where a member ends up *)
+Lemma marshal_field_entry tg f v p k w : marshal_field tg f v = Ok (p, k, w) ->
+  k = f_key f /\ p = match tg with Some t => t | None => EmptyString end /\
+  ((tg = None \/ o_string (f_opts f) = false) -> w = v) /\
+  (tg <> None -> o_string (f_opts f) = true -> exists s, sprint v = Some s /\ w = VStr s).
+Proof.
+  unfold marshal_field. destruct tg as [t|]; [|intro H; inversion H; subst; repeat split; auto; intros N; contradiction].
+  destruct (negb (negb (opts_nil (f_opts f)) && o_optional (f_opts f)) && negb (nonempty_required (f_ty f) v)); [discriminate|].
+  destruct (negb (negb (opts_nil (f_opts f)))) eqn:N.
+  - intro H; inversion H; subst. repeat split; auto. intros _ S. exfalso. unfold opts_nil in N. rewrite S in N.
+    rewrite !andb_false_r in N. discriminate.
+  - intro H. apply bind_ok in H as [[] [_ H]]. apply bind_ok in H as [[] [_ H]].
+    destruct (o_string (f_opts f)) eqn:S.
+    + destruct (sprint v) eqn:Sp; [|discriminate]. inversion H; subst. repeat split; auto.
+      * intros [Hn|Hn]; discriminate.
+      * intros _ _. eauto.
+    + inversion H; subst. repeat split; auto. intros _ Hs. discriminate.
+Qed.
+
+Lemma marshal_rows fs : forall vs rows, marshal fs vs = Ok rows ->
+  Forall2 (fun tfv row => marshal_field (fst (fst tfv)) (snd (fst tfv)) (snd tfv) = Ok row) (combine fs vs) rows.
+Proof.
+  induction fs as [|[tg f] r IH]; intros [|v vr] rows H; simpl in *; try discriminate.
+  - inversion H. constructor.
+  - apply bind_ok in H as [e [He H]]. apply bind_ok in H as [es [Hes H]]. inversion H; subst. constructor; [exact He | apply IH; exact Hes].
+Qed.
